@@ -31,6 +31,7 @@ type C16Up struct {
 	From    int `json:"from"`
 	To      int `json:"to"`
 	Returns int `json:"returns"` // name index actually returned (may differ from To; may be unknown = 9)
+	Fails   bool `json:"fails,omitempty"` // the upcaster returns an error (the walk's failure path, error handler included)
 }
 
 type C16Scenario struct {
@@ -106,6 +107,7 @@ func genC16(rt *rapid.T) core.Scenario {
 			if rapid.IntRange(0, 2).Draw(rt, "lies") > 0 {
 				u.Returns = rapid.SampledFrom([]int{u.From, 0, 1, 2, 3, 9}).Draw(rt, "returns")
 			}
+			u.Fails = rapid.IntRange(0, 3).Draw(rt, "fails") == 3
 			sc.Ups = append(sc.Ups, u)
 		}
 		nl := rapid.IntRange(1, 3).Draw(rt, "nLog")
@@ -216,6 +218,9 @@ func (sc *C16Scenario) Execute(t *testing.T) *core.Outcome {
 			ret := c16Name(u.Returns)
 			return func(d json.RawMessage) (json.RawMessage, string, error) {
 				simrt.Yield(siteUpcaster) // every application costs a scheduler step: a spinning apply exhausts the budget
+				if u.Fails {
+					return nil, "", errUpcastInjected
+				}
 				return d, ret, nil
 			}
 		}
